@@ -1225,6 +1225,13 @@ func (c *rmCtx) reversedCopyThenForward(stmts []ast.Stmt, h types.Object) bool {
 				}
 			case *ast.CompositeLit:
 				fresh = len(b.Elts) == 0
+			case *ast.SliceExpr:
+				// S[:0:0] has no capacity: append must allocate (S[:0] would alias S)
+				if b.Slice3 && b.Low == nil && b.High != nil && b.Max != nil {
+					hv, ok1 := c.constInt(b.High)
+					mv, ok2 := c.constInt(b.Max)
+					fresh = ok1 && ok2 && hv == 0 && mv == 0
+				}
 			}
 			if fresh {
 				src = c.rtField(call.Args[1])
